@@ -246,16 +246,29 @@ func runTBLS(t *core.Tape, tier string, info *core.RunInfo) *core.Violation {
 					b.valid, b.kind = false, a.kind+"+corrupted"
 					// "semantically different": a damaged encoding that still decodes to the same index
 					// and the same point is the same partial (C09 exempts it; strict decoding is C03/C04)
-					if a.valid && len(b.sig) > 2 && int(b.sig[0])<<8|int(b.sig[1]) == a.idx {
-						hp, bp := sigG.Point(), sigG.Point()
-						if hp.UnmarshalBinary(a.sig[2:]) == nil && core.Guard(func() {
-							if bp.UnmarshalBinary(b.sig[2:]) != nil {
-								bp = nil
+					// The damage may also turn an INVALID partial into a valid one: a signer's copy of
+					// somebody else's partial under its own index, whose index prefix a bit flip turns
+					// back into the original owner's (false alarm of the thorough sweep with seed 7,
+					// DESIGN 9.4). So validity is judged from the bytes that arrive: index k < n and a
+					// point equal to THE partial of signer k.
+					if len(b.sig) > 2 {
+						if k := int(b.sig[0])<<8 | int(b.sig[1]); k < n {
+							hp, bp := sigG.Point(), sigG.Point()
+							if hp.UnmarshalBinary(honest[k][2:]) == nil && core.Guard(func() {
+								if bp.UnmarshalBinary(b.sig[2:]) != nil {
+									bp = nil
+								}
+							}) == nil && bp != nil && bp.Equal(hp) {
+								b.valid = true
+								if a.valid && k == a.idx {
+									b.kind = a.kind + "+reencoded"
+									info.Probe("damaged-encoding-same-partial")
+								} else {
+									b.idx = k
+									b.kind = a.kind + "+damage-made-it-the-partial-of-another-signer"
+									info.Probe("damage-made-a-valid-partial")
+								}
 							}
-						}) == nil && bp != nil && bp.Equal(hp) {
-							b.valid = true
-							b.kind = a.kind + "+reencoded"
-							info.Probe("damaged-encoding-same-partial")
 						}
 					}
 					info.Fault("corrupt")
